@@ -86,6 +86,33 @@ def caseChg (th : Option Nat) (vals : List Nat) (impl : Sexp) : Verdict :=
     | none => false
   verdict (Sexp.beq model impl) holds "wrong-value" model
 
+def chgSpecOkF (differs : Float → Float → Bool) (vals : List Float) (outs : List Bool) : Bool :=
+  vals.length == outs.length &&
+  (List.range vals.length).all fun k =>
+    match vals[k]?, outs[k]? with
+    | some v, some o =>
+      let expected := match lastReported (vals.take k) (outs.take k) with
+        | none => true
+        | some p => differs v p
+      o == expected
+    | _, _ => false
+
+/-- Objective-valued ChangeOf: the carrier is `Float` (the values are legal objectives: no NaN). -/
+def caseChgObj (th : Option Float) (vals : List Float) (impl : Sexp) : Verdict :=
+  let outs := match th with
+    | none => changeOfRun (fun a b : Float => a == b) none vals
+    | some t => changeOfRun (deltaEqG t) none vals
+  let model := Sexp.list (outs.map ofBool)
+  -- "differs by the measure": the distance (0 between equal values, also between +inf and +inf)
+  -- is not below the threshold
+  let differs : Float → Float → Bool := match th with
+    | none => fun a b => !(a == b)
+    | some t => fun a b => !((if a == b then 0.0 else (a - b).abs) < t)
+  let holds := match bools? impl with
+    | some os => chgSpecOkF differs vals os
+    | none => false
+  verdict (Sexp.beq model impl) holds "wrong-value" model
+
 def isPrefix : List Nat → List Nat → Bool
   | [], _ => true
   | _ :: _, [] => false
@@ -117,11 +144,20 @@ def caseChance (p : UInt64) (words : List Nat) (impl : Sexp) : Verdict :=
   let model := match randomChanceRun b words.length words with
     | .ok (rs, rest) => Sexp.list [tag "r" (rs.map ofBool), tag "used" [ofNat (words.length - rest.length)]]
     | .panic => .atom "panic"
-  -- an invalid `p` is not a probability: nothing is demanded of it
-  let holds := match b with
-    | .invalid => true
-    | _ => Sexp.beq model impl
-  verdict (Sexp.beq model impl) holds "wrong-value" model
+  -- The property speaks about the probability only, which no single scripted word can refute (that is
+  -- the frequency test's job); the exact word → bool mapping is checked by `agree`. What a single
+  -- evaluation can refute: `p = 1` must fire, `p = 0` must not, a legal `p` must not panic.
+  -- An invalid `p` is not a probability: nothing is demanded of it.
+  let outs : Option (List Bool) := match impl with
+    | .list [.list (.atom "r" :: rs), _] => rs.mapM bool?
+    | _ => none
+  let isZero := Objective.ofBits p == .fin 0
+  let holds := match b, outs with
+    | .invalid, _ => true
+    | .always, some rs => rs.all id
+    | .thr _, some rs => !isZero || rs.all (!·)
+    | _, none => false
+  verdict (Sexp.beq model impl) holds (if outs.isNone then "panic" else "wrong-value") model
 
 def caseFreq (p : Float) (n : Nat) (impl : Sexp) : Verdict :=
   let expect := p * n.toFloat
@@ -165,6 +201,9 @@ def c10 (input implOut : Sexp) : Option Verdict :=
   | .list [.atom "chg", .atom "pe", .list (.atom "vals" :: vs)] => do caseChg none (← vs.mapM nat?) implOut
   | .list [.atom "chg", .list [.atom "de", t], .list (.atom "vals" :: vs)] => do
     caseChg (some (← nat? t)) (← vs.mapM nat?) implOut
+  | .list [.atom "chgo", .atom "pe", .list (.atom "vals" :: vs)] => do caseChgObj none (← vs.mapM float?) implOut
+  | .list [.atom "chgo", .list [.atom "de", t], .list (.atom "vals" :: vs)] => do
+    caseChgObj (some (← float? t)) (← vs.mapM float?) implOut
   | .list [.atom "form", f, .list (.atom "env" :: os)] => do
     let (g, _) ← parseForm 64 f 0
     caseForm g (envOf (← os.mapM res?)) implOut
